@@ -156,7 +156,10 @@ def scenario_case(ctx, case):
     status_calls, ping_calls = [], []
     out = io.StringIO()
     bad = case.get('bad') is not None or case.get('bad_default')
-    with vnet.installed(world), contextlib.redirect_stdout(out):
+    if case.get('clock'):
+        ctx.label('wall_clock_' + case['clock'])
+    with vnet.installed(world), contextlib.redirect_stdout(out), \
+            vnet.wall_clock(case.get('clock')):
         try:
             conn, o = servers.make_connection(
                 world, address=host, port=port, allowed_versions=arg,
@@ -458,6 +461,7 @@ def scenario_strategy():
         'hs': st.sampled_from(['default', 'fn', 'false']),
         'hp': st.sampled_from(['default', 'fn', 'false']),
         'dns_records': st.sampled_from([None, None, 2, 3]),
+        'clock': st.sampled_from([None, None, 'steps_back', 'frozen']),
         'host': hosts, 'port': st.one_of(st.integers(1, 65535),
                                          st.sampled_from([1, 25565, 65535])),
         'token': st.sampled_from([False, False, True, 'late_name',
@@ -502,6 +506,11 @@ def t_every_protocol(ctx, lo, hi):
                             'entry': ['connect', 'status'][p % 2],
                             'username': 'u', 'host': 'mc.example.org',
                             'dns_records': 3})
+        for hp in ('fn', 'default'):
+            scenario_case(ctx, {'allowed': [(p, 'num')], 'default': None,
+                                'reply': reply, 'entry': 'status',
+                                'username': 'u', 'hp': hp,
+                                'clock': ['steps_back', 'frozen'][p % 2]})
         scenario_case(ctx, {'allowed': [(other, 'num')] +
                             ([(sup[5], 'num')] if sup[5] not in (p, other)
                              else [(sup[6], 'num')]),
